@@ -126,6 +126,7 @@ func init() {
 	for _, n := range []string{"(*sync.Mutex).Lock", "(*sync.RWMutex).Lock", "(*sync.RWMutex).RLock"} {
 		name := n
 		symExternals[name] = func(fr *frame, args []value) value {
+			X.schedPoint()
 			if !X.inStep {
 				for len(X.pending) > 0 && X.choose(2) == 1 {
 					step := X.pending[0]
@@ -137,9 +138,36 @@ func init() {
 				}
 			}
 			X.Events = append(X.Events, name)
+			X.noteLock(name, args[0])
 			return nil
 		}
 	}
+	symExternals[rtPkg+"LockTrace"] = func(fr *frame, args []value) value {
+		out := make([]value, len(X.lockLog))
+		for i, e := range X.lockLog {
+			out[i] = e
+		}
+		return out
+	}
+}
+
+// noteLock records "<op>#<mutex number in order of first use>@<thread>" for every acquisition.
+func (e *Explorer) noteLock(name string, recv value) {
+	p, _ := recv.(*value)
+	if e.mutexIDs == nil {
+		e.mutexIDs = map[*value]int{}
+	}
+	id, ok := e.mutexIDs[p]
+	if !ok {
+		id = len(e.mutexIDs)
+		e.mutexIDs[p] = id
+	}
+	op := name[strings.LastIndex(name, ".")+1:]
+	thr := "A"
+	if e.cur == 1 {
+		thr = "B"
+	}
+	e.lockLog = append(e.lockLog, fmt.Sprintf("%s#%d@%s", op, id, thr))
 }
 
 // ---- model mode: database/sql backed by the interpreted verifsql package ----
